@@ -114,11 +114,11 @@ Definition retry_on (fx : rfix) (c : rctx) : bool := (0 <? eff_retry fx c)%Z.
 
 (* ---- nni_id_alloc on the requests map ---- *)
 Definition id_next (cur : N) : N := if (REQ_ID_MAX <? cur + 1)%N then REQ_ID_MIN else (cur + 1)%N.
-Fixpoint id_alloc (fuel : nat) (ids : list (N * N)) (cur : N) : N * N :=   (* (id, cursor') *)
+Fixpoint id_alloc (fuel : nat) (ids : list (N * N)) (cur : N) : option (N * N) :=   (* (id, cursor') *)
   match fuel with
-  | 0 => (cur, id_next cur)
+  | 0 => None        (* not reachable: more live ids than the fuel (= count + 1) *)
   | S f => match lookup cur ids with
-           | None => (cur, id_next cur)
+           | None => Some (cur, id_next cur)
            | Some _ => id_alloc f ids (id_next cur)
            end
   end.
@@ -188,7 +188,9 @@ Definition req_ctx_send (fx : rfix) (s : req) (k : N) (c : rctx) (a : aioid) (nb
   let '(s2, c2, o3) := ctx_reset fx s1 k c1 in
   if (REQ_ID_MAX - REQ_ID_MIN <? N.of_nat (length (rq_ids s2)))%N
   then (ctx_put s2 k c2, o1 ++ o2 ++ o3 ++ [Complete a E_NOMEM None], []) else
-  let '(id, cur') := id_alloc (S (length (rq_ids s2))) (rq_ids s2) (rq_cursor s2) in
+  match id_alloc (S (length (rq_ids s2))) (rq_ids s2) (rq_cursor s2) with
+  | None => (ctx_put s2 k c2, o1 ++ o2 ++ o3 ++ [Complete a E_NOMEM None], [])
+  | Some (id, cur') =>
   let m' := req_send id m in
   if is_nil (rq_ready s2) && nb then
     (* nni_aio_start refuses: the id leaves the map, ctx->request_id keeps it *)
@@ -205,7 +207,8 @@ Definition req_ctx_send (fx : rfix) (s : req) (k : N) (c : rctx) (a : aioid) (nb
                      else (s4, []) in
     let s6 := set_sendq (ctx_put s5 k c3) (rq_sendq s5 ++ [k]) in
     let '(s7, o5, cl) := run_send_queue fx s6 in
-    (s7, o1 ++ o2 ++ o3 ++ o4 ++ o5, cl).
+    (s7, o1 ++ o2 ++ o3 ++ o4 ++ o5, cl)
+  end.
 
 (* ---- req0_ctx_recv ---- *)
 Definition req_ctx_recv (s : req) (k : N) (c : rctx) (a : aioid) (nb : bool) : req * list pout :=
